@@ -101,9 +101,13 @@ Fixpoint read_k (fuel : nat) (k : N) (b : body) (acc : bytes) : (bytes + ioerr) 
 
 Definition body_fuel (b : body) : nat := sfuel (body_src b).
 
-(* what remains of the inbound stream once the body reader is dropped: the BufReader's buffer and
-   the unread part of the leftover slice are gone *)
-Definition after_drop (b : body) : list bytes := segs (body_src (drain (body_fuel b) b)).
+(* what remains of the inbound stream once the body reader is dropped.  (fix F20c) Nothing is lost any more: the bytes the
+   reader holds beyond the end of the body - the BufReader's read-ahead and the unread part of the leftover slice - are
+   carried over to the next read_request, where they come first: a first segment in front of the future ones *)
+Definition carry_of (s : src) : bytes := bbuf s ++ lo s.
+Definition with_carry (c : bytes) (sg : list bytes) : list bytes := match c with [] => sg | _ => c :: sg end.
+Definition after_drop (b : body) : list bytes :=
+  let s := body_src (drain (body_fuel b) b) in with_carry (carry_of s) (segs s).
 (* (fix F21) did the discard reach the end of the body?  [failed]: an earlier read of this reader has failed (the reader
    remembers it and does not try again) *)
 Definition located (failed : bool) (b : body) : bool := negb failed && drain_ok (body_fuel b) b.
